@@ -134,7 +134,7 @@ fn near_boundary(i: &BigInt) -> bool {
     pts.iter().any(|p| (i - p).magnitude() <= &num_bigint::BigUint::from(2u8))
 }
 
-pub const PROBES: [&str; 18] = [
+pub const PROBES: [&str; 21] = [
     "output_lovelace",
     "output_token",
     "mint",
@@ -153,6 +153,9 @@ pub const PROBES: [&str; 18] = [
     "input_value_minus_parameter",
     "two_mint_blocks_and_a_burn",
     "two_burn_blocks_and_a_mint",
+    "since_slot_from_slot_to_time",
+    "until_slot_from_time_to_slot",
+    "metadata_from_slot_to_time_plus_parameter",
 ];
 
 pub fn boundary_values() -> Vec<BigInt> {
@@ -207,6 +210,21 @@ pub fn probe(kind: usize, x: &BigInt, y: &BigInt) -> Case {
         "until_slot" => {
             tx.has_validity = true;
             tx.until = Some(GExpr::Param(0));
+            tx.outputs.push(base_out(two_ada.clone()));
+        }
+        "since_slot_from_slot_to_time" => {
+            // the compiler-evaluated built-ins do arithmetic of their own (x * 1000 + t0)
+            tx.has_validity = true;
+            tx.since = Some(GExpr::SlotToTime(px()));
+            tx.outputs.push(base_out(two_ada.clone()));
+        }
+        "until_slot_from_time_to_slot" => {
+            tx.has_validity = true;
+            tx.until = Some(GExpr::TimeToSlot(px()));
+            tx.outputs.push(base_out(two_ada.clone()));
+        }
+        "metadata_from_slot_to_time_plus_parameter" => {
+            tx.metadata = Some(vec![(GExpr::Int(7), GExpr::Add(Box::new(GExpr::SlotToTime(px())), py()))]);
             tx.outputs.push(base_out(two_ada.clone()));
         }
         "metadata_value" => {
